@@ -5,18 +5,37 @@
    in-memory transport that records every byte written and answers requests in arrival order with
    a reply derived from the request.
 
-   case input  [ kind ; logs ; calls ]
+   case input  [ kind ; logs ; calls ; conns ; panics ]
      kind   0 = Client (Modbus TCP framing), 1 = Client (RTU framing over net.Conn), 2 = SerialClient
      logs   one byte string per connection: everything written to it, in order
-     calls  [g; k; request bytes; status (0 = reply received, 1 = error returned); reply bytes]
-   outcome  ok [ frames on the wire all whole ; each caller got its own reply ; no panic ]
+     calls  [g; k; request bytes; status; reply bytes]
+            status 0 = reply received, 1 = error returned, 2 = the call panicked, 3 = never returned
+     conns  per connection [overlaps; midclose]: how often the library entered a call on the
+            transport object (Read / Write / Close / Flush / Set*Deadline) while another of its calls
+            was inside, and how often Close arrived between the write of a request and the read of
+            its reply
+     panics number of recovered panics (callers and the Close/Connect goroutines)
+   outcome  ok [ frames on the wire all whole ; each caller got its own reply ; no panic ;
+                 serialised = no overlapping transport calls, no Close inside an exchange ]
+            err [7] = the case did not finish (dead- or livelock): always a violation
+
+   Which theorem a flag is the runtime face of (Properties/C14.v):
+     whole       C14_wire_whole_frames_in_lock_order, C14_wire_never_interleaved
+     own         C14_every_caller_gets_own_reply
+     serialised  C14_steps_by_holder / C14_one_at_a_time: every write, read, transport call of
+                 Close / Connect and release is made by the lock holder, and while it holds the lock
+                 nobody else takes a step -- so two calls on the transport never overlap and a Close
+                 never falls inside an exchange
+     no panic / no hang: not a theorem of the wire model (the skeleton obligation excludes the
+                 unlocked use of conn that leads to the nil dereference; C14_well_locked_sound:
+                 complete executions end with the lock released)
 
    Model side [run_conc]: the callers of ClientConcModel perform the successful requests under the
    recorded schedule (the order of the frames on the wire = lock-acquisition order); the projected
    outcome is computed from the model's final state.  By ClientConcProofs it is all-true for every
    schedule, so a deviation of the implementation is both a mismatch and a violation.
    Verdict [verdict_conc] (property 14): the implementation's flags must be all-true AND the raw
-   record must pass the same judgement recomputed here from the logs and replies. *)
+   record must pass the same judgement recomputed here from the logs, replies and counters. *)
 Require Import MB.GoSem MB.Val MB.Entry MB.CrcModel MB.LockModel MB.ClientConcModel.
 From Coq Require Import String.
 Open Scope N_scope.
@@ -88,12 +107,13 @@ Definition conc_decode (kind : N) (w : list N) : list (list N) := fst (conc_spli
 Definition conc_leftover (kind : N) (w : list N) : list N := snd (conc_split (List.length w) kind w).
 
 (* ---- reading the case ---- *)
-Record ccall := { cc_g : nat; cc_k : nat; cc_req : list N; cc_ok : bool; cc_reply : list N }.
+Record ccall := { cc_g : nat; cc_k : nat; cc_req : list N; cc_ok : bool; cc_bad : bool; cc_reply : list N }.
 
 Definition parse_call (v : val) : option ccall :=
   match v with
   | VL [VI g; VI k; VB req; VI st; VB rep] =>
-      Some {| cc_g := Z.to_nat g; cc_k := Z.to_nat k; cc_req := req; cc_ok := Z.eqb st 0; cc_reply := rep |}
+      Some {| cc_g := Z.to_nat g; cc_k := Z.to_nat k; cc_req := req; cc_ok := Z.eqb st 0;
+              cc_bad := Z.leb 2 st; cc_reply := rep |}
   | _ => None
   end.
 Fixpoint parse_calls (vs : list val) : option (list ccall) :=
@@ -129,6 +149,16 @@ Definition raw_whole (kind : N) (logs : list (list N)) (calls : list ccall) : bo
 Definition raw_own (kind : N) (calls : list ccall) : bool :=
   forallb (fun c => negb (cc_ok c) || list_eqb (cc_reply c) (conc_reply kind (cc_req c))) calls.
 
+(* no overlapping transport calls, no Close inside an exchange: all counters zero *)
+Fixpoint raw_serialised (conns : list val) : bool :=
+  match conns with
+  | [] => true
+  | VL [VI a; VI b] :: r => Z.eqb a 0 && Z.eqb b 0 && raw_serialised r
+  | _ => false
+  end.
+Definition raw_no_panic (panics : Z) (calls : list ccall) : bool :=
+  Z.eqb panics 0 && forallb (fun c => negb (cc_bad c)) calls.
+
 (* ---- model side ---- *)
 Fixpoint nat_max (l : list nat) : nat := match l with [] => O | x :: r => Nat.max x (nat_max r) end.
 
@@ -137,9 +167,27 @@ Definition conc_reqs (oks : list ccall) (g : nat) : list call :=
 Definition owner_of (oks : list ccall) (f : list N) : option nat :=
   match filter (fun c => list_eqb (cc_req c) f) oks with c :: _ => Some (cc_g c) | [] => None end.
 
+(* along a model run: is every step made by the holder (acquire: is the mutex free)?  Always true by
+   C14_steps_by_holder; computed so that the model side produces the flag rather than assumes it *)
+Fixpoint sched_serialised (reply_of : frm -> frm) (dec : list N -> list frm) (sched : list nat) (s : cst) : bool :=
+  match sched with
+  | [] => true
+  | i :: r =>
+      match step_fun reply_of dec s i with
+      | Some (a, s') =>
+          match a, c_owner s with
+          | AAcq _, None => true
+          | AAcq _, Some _ => false
+          | _, Some j => Nat.eqb j i
+          | _, None => false
+          end && sched_serialised reply_of dec r s'
+      | None => sched_serialised reply_of dec r s
+      end
+  end.
+
 Definition run_conc (args : list val) : val :=
   match args with
-  | [VI kind; VL logs; VL calls] =>
+  | [VI kind; VL logs; VL calls; VL _; VI _] =>
       match parse_logs logs, parse_calls calls with
       | Some ls, Some cs =>
           let kd := Z.to_N kind in
@@ -163,7 +211,8 @@ Definition run_conc (args : list val) : val :=
                      forallb (fun x => match snd x with
                                        | Some r => list_eqb r (conc_reply kd (fst x))
                                        | None => false end) all_results in
-          v_ok [vbool whole; vbool own; vbool true]
+          let ser := sched_serialised (conc_reply kd) dec (sched ++ tail) (cinit (conc_reqs oks)) in
+          v_ok [vbool whole; vbool own; vbool true; vbool ser]
       | _, _ => v_bad
       end
   | _ => v_bad
@@ -172,11 +221,12 @@ Definition run_conc (args : list val) : val :=
 Definition verdict_conc (p : N) (args : list val) (o : val) : N :=
   if p =? 14 then
     match args with
-    | [VI kind; VL logs; VL calls] =>
+    | [VI kind; VL logs; VL calls; VL conns; VI panics] =>
         match parse_logs logs, parse_calls calls with
         | Some ls, Some cs =>
             let kd := Z.to_N kind in
-            if val_eqb o (v_ok [vbool true; vbool true; vbool true]) && raw_whole kd ls cs && raw_own kd cs
+            if val_eqb o (v_ok [vbool true; vbool true; vbool true; vbool true]) &&
+               raw_whole kd ls cs && raw_own kd cs && raw_no_panic panics cs && raw_serialised conns
             then HOLDS else VIOLATES
         | _, _ => VIOLATES
         end
